@@ -1096,6 +1096,9 @@ class SyncObj(object):
 
     def __onNodeConnected(self, node):
         self.__connectedNodes.add(node)
+        # A new connection (it can replace a dead one that was never reported as disconnected):
+        # pieces of a snapshot sent over the old one may be lost, start over.
+        self.__serializer.cancelTransmisstion(node)
 
     def __onNodeDisconnected(self, node):
         self.__connectedNodes.discard(node)
